@@ -32,6 +32,7 @@ def _case(draw, tier):
     m2 = draw(st.one_of(gen.maxtau_for(g, positive_only=True), st.just(m1)))
     c["mt1"], c["mt2"] = min(m1, m2), max(m1, m2)
     c["compiled"] = draw(st.booleans())
+    c["interval"] = draw(st.one_of(st.none(), gen.subinterval_for(g).map(list)))
     return c
 
 
@@ -45,7 +46,8 @@ def _enum(tier, shard, nshards):
             for mrts in (0.0, 2.0, 6.0):
                 for (x, y) in ((0.5, 1.0), (1.0, 1.5), (1.0, 2.0), (2.0, 3.0)):
                     yield dict(t0=0.0, t1=float(G), trains=[a, b], mrts=mrts,
-                               mt1=x, mt2=y, compiled=bool((m1 + m2) & 1))
+                               mt1=x, mt2=y, compiled=bool((m1 + m2) & 1),
+                               interval=[1.0, 5.5] if m2 & 1 else None)
 
 
 PHASES = [
@@ -130,6 +132,28 @@ def _observe(ctx, case, st1, st2, mt):
         for t in kept[n].spikes:
             s.add((n, float(t)))
     res["filter"] = (s, [list(k.spikes) for k in kept])
+    # scalar forms (bivariate, list form = multivariate code path, matrix), whole
+    # recording and the sub-interval of the case
+    iv = case.get("interval")
+    ivs = [None] + ([tuple(iv)] if iv else [])
+    sc = {}
+    for I in ivs:
+        ik = {} if I is None else {"interval": I}
+        sc[("sync_bi", I)] = float(ctx.call("spike_sync", pyspike.spike_sync, st1, st2,
+                                            **ik, **mk, **kw))
+        sc[("sync_list", I)] = float(ctx.call("spike_sync_list", pyspike.spike_sync,
+                                              [st1, st2], **ik, **mk, **kw))
+        sc[("sync_matrix", I)] = float(np.asarray(ctx.call(
+            "spike_sync_matrix", pyspike.spike_sync_matrix, [st1, st2], **ik, **mk, **kw))[0, 1])
+    sc[("order_bi", None)] = float(ctx.call("spike_train_order", pyspike.spike_train_order,
+                                            st1, st2, **mk, **kw))
+    sc[("order_list", None)] = float(ctx.call("spike_train_order_list",
+                                              pyspike.spike_train_order, [st1, st2],
+                                              **mk, **kw))
+    sc[("dir_matrix", None)] = float(np.asarray(ctx.call(
+        "spike_directionality_matrix", pyspike.spike_directionality_matrix, [st1, st2],
+        normalize=False, **mk, **kw))[0, 1])
+    res["scalars"] = sc
     return res
 
 
@@ -159,6 +183,38 @@ def run_case(case, ctx):
         ctx.check(obs2[name][0] <= obsN[name][0], "subset_of_unbounded:" + name,
                   lambda: "%s: coincident with max_tau=%r but not without bound: %r"
                   % (name, case["mt2"], sorted(obs2[name][0] - obsN[name][0])))
+    # scalar forms: nothing closer than max_tau -> no coincidence can be counted;
+    # None == 0; SPIKE-Sync values never decrease when max_tau grows
+    allp = [abs(x - y) for x in tr[0] for y in tr[1]]
+    for mt, obs in ((case["mt1"], obs1), (case["mt2"], obs2)):
+        if allp and min(allp) >= mt:
+            for (name, I), v in obs["scalars"].items():
+                if name.startswith("sync"):
+                    lo, hi = (case["t0"], case["t1"]) if I is None else I
+                    inside = [t for t in tr[0] + tr[1]
+                              if (lo < t < hi) or (I is None and lo <= t <= hi)]
+                    exp = 0.0 if inside else 1.0
+                else:
+                    if not (tr[0] or tr[1]):
+                        continue
+                    exp = 0.0
+                ctx.check(v == exp, "bound:scalar:" + name,
+                          lambda: "%s(interval=%r, max_tau=%r) = %r although the closest "
+                                  "spikes of the two trains are %r apart"
+                          % (name, I, mt, v, min(allp)))
+    for key in obsN["scalars"]:
+        ctx.check(obsN["scalars"][key] == obs0["scalars"][key] == obsO["scalars"][key]
+                  or all(v != v for v in (obsN["scalars"][key], obs0["scalars"][key],
+                                          obsO["scalars"][key])),
+                  "none_equals_zero:scalar:" + key[0],
+                  lambda: "%r: None %r, 0 %r, omitted %r" % (key, obsN["scalars"][key],
+                                                          obs0["scalars"][key],
+                                                          obsO["scalars"][key]))
+        if key[0].startswith("sync"):
+            a_, b_, c_ = obs1["scalars"][key], obs2["scalars"][key], obsN["scalars"][key]
+            ctx.check(a_ <= b_ + 1e-12 and b_ <= c_ + 1e-12, "monotone:scalar:" + key[0],
+                      lambda: "%r: max_tau=%r -> %r, max_tau=%r -> %r, unbounded %r"
+                      % (key, case["mt1"], a_, case["mt2"], b_, c_))
     # simultaneous spikes are 0 apart: always inside any positive bound
     shared = set(tr[0]) & set(tr[1])
     for t in shared:
